@@ -116,6 +116,29 @@ FieldOwners(rest, alt, isResize) ==
 (* lost).  So the terminal is compared with the handed-out lines put back in       *)
 (* front of lines(); when the caller dropped them unread, the shorter lines() must *)
 (* be a suffix of the other.                                                       *)
+(* Silent points: places where the property statements say nothing and a          *)
+(* maintainer could reasonably choose otherwise (DESIGN.md 3.3).  (S) mirrors the  *)
+(* pinned code there; for a one-function call the comparison erases exactly that   *)
+(* component on both sides, so a change confined to a silent point is reported as  *)
+(* DRIFT, never as a violation.  The declarative predicates stay strict wherever   *)
+(* a statement does speak.                                                         *)
+EraseMarks(t, rows) ==
+  [t EXCEPT !.buf.lines = [i \in 1..Len(@) |-> IF (i - (Len(@) - t.rows) - 1) \in rows THEN [@[i] EXCEPT !.w = FALSE] ELSE @[i]]]
+Silence(pre, fn, x) ==
+  LET f == fn.f IN
+  IF x.rows # pre.rows \/ x.cols # pre.cols \/ Len(x.buf.lines) < x.rows THEN x
+  ELSE CASE f = "Decstbm" /\ ~(LET tp == NN(fn.a[1]) bt == IF fn.a[2] = 0 THEN pre.rows ELSE fn.a[2] IN 1 <= tp /\ tp < bt /\ bt <= pre.rows)
+              -> [x EXCEPT !.col = 0, !.row = 0, !.pw = FALSE]                       \* does an INVALID DECSTBM home?
+         [] f \in {"Lf", "Nel"} /\ IsScrollingStep(pre, fn)
+              -> EraseMarks([x EXCEPT !.col = Min2(@, x.cols - 1), !.pw = FALSE], (pre.top - 1)..pre.bottom)   \* ScrollingLfKeepsPendingWrap
+         [] f \in {"Su", "Dl"} -> EraseMarks(x, ((IF f = "Su" THEN pre.top ELSE pre.row) - 1)..pre.rows)       \* PartialRegionScrollClearsWrapMark
+         [] f = "Print" /\ pre.autowrap /\ pre.pw /\ pre.row = pre.bottom -> EraseMarks(x, (pre.top - 1)..pre.bottom)
+         [] f = "Ech" /\ pre.col >= pre.cols -> EraseMarks(x, {pre.row})             \* EchAtWrapColumnClearsMark
+         [] f = "El" /\ ((fn.a[1] = 1 /\ pre.col >= pre.cols - 1) \/ (fn.a[1] = 0 /\ pre.col >= pre.cols)) -> EraseMarks(x, {pre.row})   \* El1KeepsMark
+         [] f = "Ed" /\ ((fn.a[1] = 1 /\ pre.col >= pre.cols - 1) \/ (fn.a[1] = 0 /\ pre.col >= pre.cols)) -> EraseMarks(x, {pre.row})
+         [] f = "Decaln" -> EraseMarks(x, 0..(pre.rows - 1))                          \* DecalnKeepsWrapMarks
+         [] OTHER -> x
+
 Normal(t, dr) == [t EXCEPT !.buf.lines = dr \o @, !.buf.trim = FALSE, !.other.trim = FALSE, !.dirty = <<>>]
 ViewNormal(t) == [t EXCEPT !.buf.lines = View(t.buf), !.buf.trim = FALSE, !.other.trim = FALSE, !.dirty = <<>>]
 Conformance(ll, what, r, fns, e, own) ==
@@ -123,7 +146,8 @@ Conformance(ll, what, r, fns, e, own) ==
       a == IF e.consumed THEN Normal(r.vt.t, r.dr) ELSE ViewNormal(r.vt.t)
       b == IF e.consumed THEN Normal(cur.t, e.dr) ELSE ViewNormal(cur.t)
       okSb == e.consumed \/ SuffixOf(cur.t.buf.lines, r.vt.t.buf.lines) \/ SuffixOf(r.vt.t.buf.lines, cur.t.buf.lines)
-      okT == a = b
+      silent == a # b /\ Len(fns) = 1 /\ what = "fs" /\ Silence(e.pre, fns[1], a) = Silence(e.pre, fns[1], b)
+      okT == a = b \/ silent
       okP == r.vt.p = cur.p
       leaves == IF okT THEN {} ELSE Leaves(a, b)
       blame ==    (IF leaves # {} THEN own \cup FieldOwners(leaves, cur.t.alt, what = "rs") ELSE {})
@@ -134,8 +158,9 @@ Conformance(ll, what, r, fns, e, own) ==
                 \o (IF okP THEN "" ELSE " parser: spec=" \o ToJson(r.vt.p) \o " impl=" \o ToJson(cur.p))
                 \o (IF okSb THEN "" ELSE " scrollback diverges")
       bookkeeping == r.ch # e.ch \/ r.vt.t.dirty # cur.t.dirty \/ r.vt.t.buf.trim # cur.t.buf.trim
-                     \/ r.vt.t.other.trim # cur.t.other.trim \/ Len(r.dr) # Len(e.dr)
+                     \/ r.vt.t.other.trim # cur.t.other.trim \/ (e.consumed /\ Len(r.dr) # Len(e.dr))
   IN (IF okT /\ okP /\ okSb THEN <<>> ELSE <<Msg("CONF", ll, "what=" \o what \o " owners=" \o S(blame) \o detail)>>)
+     \o (IF silent THEN <<Msg("DRIFT", ll, "silent point: " \o fns[1].f \o " differs from the pinned behaviour only where no property speaks")>> ELSE <<>>)
      \o (IF okT /\ okP /\ okSb /\ bookkeeping
          THEN <<Msg("DRIFT", ll, "bookkeeping differs (changed-line set / trim timing): changes spec=" \o S(r.ch) \o " impl=" \o S(e.ch))>> ELSE <<>>)
 
@@ -159,7 +184,8 @@ Handle(ll, e) ==
         r == IF k = "fs" THEN FeedStr(prev, e.s)
              ELSE IF k = "rs" THEN ResizeCall(prev, e.cols, e.rows)
              ELSE [vt |-> FeedChars(prev, e.s), ch |-> <<>>, dr |-> <<>>]
-        e2 == IF k = "fc" THEN [ch |-> <<>>, dr |-> <<>>, consumed |-> TRUE, st |-> e.st] ELSE e
+        e2 == IF k = "fc" THEN [ch |-> <<>>, dr |-> <<>>, consumed |-> TRUE, st |-> e.st, pre |-> prev.t]
+              ELSE [ch |-> e.ch, dr |-> e.dr, consumed |-> e.consumed, st |-> e.st, pre |-> prev.t]
         g1 == GhostStep(gh[s], prev, fns, cur, IF k = "fc" THEN <<>> ELSE e.dr)
         g2 == IF k = "rs" THEN [g1 EXCEPT !.resized = TRUE, !.snapResized = TRUE] ELSE g1
     IN [vts |-> [vts EXCEPT ![s] = cur], gh |-> [gh EXCEPT ![s] = g2],
